@@ -32,6 +32,7 @@ def plan(tier):
     else:
         specs = [(2, [("dense", 1, 6), ("bounded", 3, 7, 9)], MENU_T), (3, [("dense", 1, 4)], MENU_Q),
                  (4, [("dense", 1, 2), ("bounded", 2, 3, 3)], MENU_Q),
+                 (4, [("bounded", 1, 4, 4)], MENU_Q[:3]),
                  (5, [("dense", 1, 1), ("bounded", 1, 2, 3)], MENU_Q[:2])]
     tasks, descs = [], []
     mixed_ks = (8,) if tier == "quick" else (8, 10)
